@@ -6,7 +6,7 @@ from harness.props.mnemonic_common import IMPL, BIP39_LANGS, oracle_for
 from bip_utils import Bip39Languages, Bip39MnemonicDecoder, Bip39MnemonicEncoder, Bip39MnemonicValidator
 from bip_utils.bip.bip39.bip39_mnemonic_utils import Bip39WordsListGetter
 
-LEAN_MODULES = ["BipVerif.Props.C01"]
+LEAN_MODULES = ["BipVerif.Props.C01", "BipVerif.Props.C01Tables"]
 SIZES = [16, 20, 24, 28, 32]
 WS = [" ", "  ", "\t", "\n", " ", "　", " ", " \t "]
 F_AUTODETECT = "3bd96bf911566870ec47f2a555af889d"
